@@ -379,6 +379,30 @@ namespace
     struct compares_on_move<std::basic_string<T, Tr, A>> : std::true_type
     {
     };
+    // a type-erased std_allocator may be built from another type-erased reference's get_allocator();
+    // it then has to refer to the allocator, not to that (possibly short-lived) reference object
+    template <class A>
+    struct is_any_std : std::false_type
+    {
+    };
+    template <class T>
+    struct is_any_std<fm::std_allocator<T, fm::any_allocator>> : std::true_type
+    {
+    };
+    template <class Alloc, class Leaf>
+    Alloc make_alloc(Leaf& l, unsigned how)
+    {
+        if constexpr (is_any_std<Alloc>::value)
+        {
+            if (how % 3 == 2)
+            {
+                fm::any_allocator_reference ref(l);
+                return Alloc(ref.get_allocator()); // ref dies here
+            }
+        }
+        (void)how;
+        return Alloc(l);
+    }
     template <class C>
     struct is_list : std::false_type
     {
@@ -419,7 +443,7 @@ namespace
         for (size_t i = 0; i < NS; ++i)
         {
             CLeaf& l = bind(P(1) >> i);
-            c[i].reset(new C(Alloc(l)));
+            c[i].reset(new C(make_alloc<Alloc>(l, P(3) + unsigned(i))));
             r[i].reset(new R());
             owner[i] = l.owner();
         }
@@ -492,7 +516,7 @@ namespace
                 if (op.c % 2)
                 {
                     CLeaf& l = bind(op.c / 2);
-                    c[j].reset(new C(*c[i], Alloc(l)));
+                    c[j].reset(new C(*c[i], make_alloc<Alloc>(l, op.b / 8)));
                     owner[j] = l.owner();
                 }
                 else
@@ -590,7 +614,7 @@ namespace
             default:
             {
                 CLeaf& l = bind(op.c);
-                c[i].reset(new C(Alloc(l)));
+                c[i].reset(new C(make_alloc<Alloc>(l, op.b)));
                 r[i].reset(new R());
                 owner[i] = l.owner();
             }
